@@ -40,6 +40,9 @@ const swaggerDoc = `{
   "/d":{"post":{"operationId":"opD","security":[{"key":["skd"]}],
     "parameters":[{"name":"n","in":"query","type":"integer","format":"int64"},{"name":"body","in":"body","required":true,"schema":{"type":"object"}}],
     "responses":{"200":{"description":"ok"}}}},
+  "/e":{"post":{"operationId":"opE",
+    "parameters":[{"name":"n","in":"query","type":"integer","format":"int64"},{"name":"body","in":"body","required":true,"schema":{"type":"object"}}],
+    "responses":{"200":{"description":"ok"}}}},
   "/c/{id}":{"get":{"operationId":"opC","security":[{"key":["skc"]},{"tok":["stc1","stc2"]}],
     "parameters":[{"name":"id","in":"path","type":"string","required":true},{"name":"n","in":"query","type":"integer","format":"int64"}],
     "responses":{"200":{"description":"ok"}}}}
@@ -302,6 +305,7 @@ func build() *built {
 	api.RegisterOperation("POST", "/b/{id}", handler())
 	api.RegisterOperation("GET", "/c/{id}", handler())
 	api.RegisterOperation("POST", "/d", handler())
+	api.RegisterOperation("POST", "/e", handler())
 	if err := api.Validate(); err != nil {
 		panic(err)
 	}
@@ -401,6 +405,8 @@ func (q reqIn) httpRequest() *http.Request {
 		method, path = "GET", "/c/"
 	case "opD":
 		path, id = "/d", ""
+	case "opE":
+		path, id = "/e", ""
 	}
 	var body io.Reader
 	if method == "POST" {
